@@ -43,10 +43,10 @@ package kgo
 //@ func (b *broker) handleReq(pr promisedReq)
 //@   prop C21
 //@   site call SetVersion#0 assert [not-above-client-max] arg0 <= $MaxVersion0
-//@   site call SetVersion#0 assert [not-above-broker-max] $maxVersion2 >= 0 ==> arg0 <= $maxVersion2
+//@   site call SetVersion#0 assert [not-above-broker-max] $maxVersion1 >= 0 ==> arg0 <= $maxVersion1
 //@   site call SetVersion#0 assert [not-above-pinned-max] ($assert1_1 && $assert1_0.pinMax) ==> arg0 <= $assert1_0.max
 //@   site call SetVersion#0 assert [not-above-user-max] reached($LookupMaxKeyVersion0_0) ==> arg0 <= $LookupMaxKeyVersion0_0
-//@   site call SetVersion#0 assert [tight] arg0 == $MaxVersion0 || ($maxVersion2 >= 0 && arg0 == $maxVersion2)
+//@   site call SetVersion#0 assert [tight] arg0 == $MaxVersion0 || ($maxVersion1 >= 0 && arg0 == $maxVersion1)
 //@        || ($assert1_1 && $assert1_0.pinMax && arg0 == $assert1_0.max) || (reached($LookupMaxKeyVersion0_0) && arg0 == $LookupMaxKeyVersion0_0)
 //@   site call SetVersion#0 assert [not-below-broker-min] $minVersion0 >= 0 ==> arg0 >= $minVersion0
 //@   site call SetVersion#0 assert [not-below-pinned-min] ($assert1_1 && $assert1_0.pinMin && $assert1_0.min >= 0) ==> arg0 >= $assert1_0.min
@@ -55,7 +55,9 @@ package kgo
 //@   site call writeRequest#0 assert [clamped-before-write] reached($SetVersion0)
 //   "When no such version exists, the request fails with an error and is not written": once the broker's ApiVersions
 //   table is loaded (it is never empty then), a request whose key the table does not list is not written.
-//@   site call writeRequest#0 assert [not-written-when-broker-lacks-key] len(v.maxVers) > 0 ==> $maxVersion2 >= 0
+//   (asserted where the client's own maximum is read, directly after the guard, and every write passes that point)
+//@   site call MaxVersion#0 assert [not-written-when-broker-lacks-key] len(v.maxVers) > 0 ==> $maxVersion0 >= 0
+//@   site call writeRequest#0 assert [guard-before-write] reached($MaxVersion0)
 
 // The connection-opening ApiVersions request is written outside handleReq, by requestAPIVersions. The version it
 // is written with (every iteration of the downgrade loop at `start:`) is never negative, never above the user's
